@@ -56,20 +56,20 @@ func buildExprs(exprs []Expression, builder Builder, joinCond string) {
 			switch v := expr.(type) {
 			case OrConditions:
 				if len(v.Exprs) == 1 {
-					if e, ok := v.Exprs[0].(Expr); ok {
+					if e, ok := unwrapSingle(v.Exprs[0]).(Expr); ok {
 						sql := strings.ToUpper(e.SQL)
 						wrapInParentheses = containsAndOr(sql)
-					} else if e, ok := v.Exprs[0].(NamedExpr); ok {
+					} else if e, ok := unwrapSingle(v.Exprs[0]).(NamedExpr); ok {
 						sql := strings.ToUpper(e.SQL)
 						wrapInParentheses = containsAndOr(sql)
 					}
 				}
 			case AndConditions:
 				if len(v.Exprs) == 1 {
-					if e, ok := v.Exprs[0].(Expr); ok {
+					if e, ok := unwrapSingle(v.Exprs[0]).(Expr); ok {
 						sql := strings.ToUpper(e.SQL)
 						wrapInParentheses = containsAndOr(sql)
-					} else if e, ok := v.Exprs[0].(NamedExpr); ok {
+					} else if e, ok := unwrapSingle(v.Exprs[0]).(NamedExpr); ok {
 						sql := strings.ToUpper(e.SQL)
 						wrapInParentheses = containsAndOr(sql)
 					}
@@ -90,6 +90,27 @@ func buildExprs(exprs []Expression, builder Builder, joinCond string) {
 			wrapInParentheses = false
 		} else {
 			expr.Build(builder)
+		}
+	}
+}
+
+// unwrapSingle looks through nested single-member And / Or groups, which build no parentheses
+// of their own, e.g. the And(Or(raw)) produced when the soft delete clause groups a leading Or
+func unwrapSingle(expr Expression) Expression {
+	for {
+		switch v := expr.(type) {
+		case AndConditions:
+			if len(v.Exprs) != 1 {
+				return expr
+			}
+			expr = v.Exprs[0]
+		case OrConditions:
+			if len(v.Exprs) != 1 {
+				return expr
+			}
+			expr = v.Exprs[0]
+		default:
+			return expr
 		}
 	}
 }
